@@ -84,7 +84,7 @@ def dkeys {α : Type} (d : Dict α) : List String := d.map (·.1)
 /-- a deck entry: a mapping (logged) or anything else (dropped by `logDeck`) -/
 inductive Entry where
   | map (m : Dict Atom)
-  | other (a : Atom)
+  | other (v : Val)
 deriving DecidableEq, Repr, Inhabited
 
 structure Share where
